@@ -117,6 +117,9 @@ EVENTS = {
     'TokCHF': (['curin', 'Tok', 'CHF'], ['Tok'], 'valid'),
     'Tok2': (['type', 'Tok2', None, None, 'Tok'], ['Tok'], 'valid'),
     'Tok2SEK': (['curin', 'Tok2', 'SEK'], ['Tok2'], 'valid'),
+    # a subclass of Money with a reference currency
+    'TokR': (['type', 'TokR', 'tr0', None, 'Money'], ['Money'], 'valid'),
+    'TokRDKK': (['curin', 'TokR', 'DKK'], ['TokR'], 'valid'),
     # an ISO code declared directly, and its registration afterwards
     'JPYhand': (['newcur', 'JPY', 2, None], [], 'valid'),
     '!JPYreg': (['cur', 'JPY'], ['JPY'], 'invalid:duplicate symbol'),
